@@ -18,7 +18,7 @@ func init() {
 	property("C06",
 		"Static conformance of the hoisting mechanism: (a) each inline arm of the argument loop records one text/movement with the command being built, the index of the argument being built, the owning script name, and leaves one placeholder in the argument; (b) addImplicitTexts / addImplicitMovements patch exactly that argument with a label, on a miss define the label once (same key for lookup and insert, the per-script counter used is the one incremented, content and string type copied from the record, local scope), dedup keys cover content and string type / separator-joined steps; (c) every *impData produced by a callee flows into the value the function returns (or into the program) on every successful path — nothing collected on the way up is lost; (d) label formats; (e) every program text is emitted and hoisted movements are dispatched to the movement emitter. Inline data is handed over on every successful path and merged in source order (C06.c); add/addImplicitData always merge both kinds; token literals are source text (C19.f). The parser's tables have owners (C06.f): the hoisting tables are touched by the two registering functions and ParseProgram's resets only, the constants table by the definition parser and the substitution helper only, maps the parser is handed are never written, and hoisted data is registered by the top-level statement parser alone; the script name is threaded unchanged from the script statement to the records (C06.a).",
 		[]string{"Go map equality of the dedup key struct (content, string type)", "scheme argument of DESIGN §4 C06"},
-		"C06.a", "C06.b", "C06.c", "C06.d", "C06.e", "C12.a", "C20.d", "C09.b", "C10.f", "C19.f", "C08.e", "C18.m", "C06.f", "C17.h", "C09.c", "C09.e", "C18.d", "C18.n")
+		"C06.a", "C06.b", "C06.c", "C06.d", "C06.e", "C12.a", "C20.d", "C09.b", "C10.f", "C19.f", "C08.e", "C18.m", "C06.f", "C17.h", "C09.c", "C09.e", "C18.d", "C18.n", "C19.b", "C19.c", "C19.d", "C19.e")
 
 	register(&Rule{ID: "C06.a", Doc: "inline arms record (command, argument index, script, content) and leave a placeholder", Floor: 10, Run: c06a})
 	register(&Rule{ID: "C06.b", Doc: "patch-and-define protocol of addImplicitTexts / addImplicitMovements", Floor: 14, Run: c06b})
